@@ -1,6 +1,6 @@
 (* ImplicitP.v -- lemmas about Implicit.v: a tree in normal form is a fixpoint of validation (no change, empty change
    list), default flags are sound, validation keeps the canonical order. *)
-From Coq Require Import Permutation.
+From Coq Require Import Permutation Sorted.
 From LY Require Import Base Tree TreeP Implicit.
 From Coq Require Import ZifyBool ZifyNat ZifyN.
 Local Open Scope N_scope.
@@ -766,6 +766,668 @@ Section Sound.
 End Sound.
 
 (* ------------------------------------------------------------------------------------------- *)
+(* Sub l' l: l' is l with some elements dropped and LYD_NEW cleared on some                      *)
+(* ------------------------------------------------------------------------------------------- *)
+Inductive Sub : forest -> forest -> Prop :=
+| Sub_nil : Sub [] []
+| Sub_drop x l' l : Sub l' l -> Sub l' (x :: l)
+| Sub_keep x l' l : Sub l' l -> Sub (x :: l') (x :: l)
+| Sub_clr x l' l : Sub l' l -> Sub (clr_new x :: l') (x :: l).
+
+Lemma Sub_refl l : Sub l l.
+Proof. induction l; constructor; assumption. Qed.
+
+Lemma clr_new_idem x : clr_new (clr_new x) = clr_new x.
+Proof.
+  destruct x as [s v d m ch]. cbn [clr_new]. f_equal.
+  induction m as [|kv m IH]; cbn [filter]; [reflexivity|].
+  destruct (negb (is_newkv kv)) eqn:E; cbn [filter]; [rewrite E; f_equal; exact IH|exact IH].
+Qed.
+
+Lemma Sub_trans : forall b c, Sub b c -> forall a, Sub a b -> Sub a c.
+Proof.
+  induction 1 as [|x b c Hbc IH|x b c Hbc IH|x b c Hbc IH]; intros a Hab.
+  - exact Hab.
+  - constructor. apply IH, Hab.
+  - inversion Hab; subst.
+    + constructor. apply IH. assumption.
+    + apply Sub_keep. apply IH. assumption.
+    + apply Sub_clr. apply IH. assumption.
+  - inversion Hab; subst.
+    + constructor. apply IH. assumption.
+    + apply Sub_clr. apply IH. assumption.
+    + rewrite clr_new_idem. apply Sub_clr. apply IH. assumption.
+Qed.
+
+Lemma Sub_app a a' b b' : Sub a a' -> Sub b b' -> Sub (a ++ b) (a' ++ b').
+Proof.
+  intros Ha Hb. induction Ha; cbn [app]; [exact Hb|apply Sub_drop|apply Sub_keep|apply Sub_clr]; assumption.
+Qed.
+
+Lemma Sub_filter q l : Sub (filter q l) l.
+Proof. induction l as [|x l IH]; cbn [filter]; [constructor|]. destruct (q x); constructor; exact IH. Qed.
+
+Lemma Sub_remove_first q l : Sub (remove_first q l) l.
+Proof.
+  induction l as [|x l IH]; cbn [remove_first]; [constructor|].
+  destruct (q x); [constructor; apply Sub_refl|constructor; exact IH].
+Qed.
+
+Lemma Sub_In l' l x : Sub l' l -> In x l' -> exists y, In y l /\ (x = y \/ x = clr_new y).
+Proof.
+  induction 1 as [|z l' l H IH|z l' l H IH|z l' l H IH]; intro Hin.
+  - destruct Hin.
+  - destruct (IH Hin) as [y [Hy Hx]]. exists y. split; [right; exact Hy|exact Hx].
+  - destruct Hin as [<-|Hin]; [exists z; split; [left; reflexivity|left; reflexivity]|].
+    destruct (IH Hin) as [y [Hy Hx]]. exists y. split; [right; exact Hy|exact Hx].
+  - destruct Hin as [<-|Hin]; [exists z; split; [left; reflexivity|right; reflexivity]|].
+    destruct (IH Hin) as [y [Hy Hx]]. exists y. split; [right; exact Hy|exact Hx].
+Qed.
+
+(* a property of nodes that clr_new does not change is inherited *)
+Lemma Sub_Forall (P : dnode -> Prop) l' l :
+  (forall x, P x -> P (clr_new x)) -> Sub l' l -> Forall P l -> Forall P l'.
+Proof.
+  intros Hc H HF. apply Forall_forall. intros x Hx. rewrite Forall_forall in HF.
+  destruct (Sub_In _ _ _ H Hx) as [y [Hy [-> | ->]]]; [apply HF, Hy|apply Hc, HF, Hy].
+Qed.
+
+Lemma Sub_sorted (R : dnode -> dnode -> Prop) l' l :
+  (forall x y, R x y -> R (clr_new x) y) -> (forall x y, R x y -> R x (clr_new y)) ->
+  Sub l' l -> StronglySorted R l -> StronglySorted R l'.
+Proof.
+  intros Hl Hr H. induction H as [|x l' l H IH|x l' l H IH|x l' l H IH]; intro HS.
+  - constructor.
+  - inversion HS; subst. apply IH. assumption.
+  - inversion HS as [|? ? HS' HF]; subst. constructor; [apply IH, HS'|].
+    apply (Sub_Forall (R x) l' l); [intros y Hy; apply Hr, Hy|exact H|exact HF].
+  - inversion HS as [|? ? HS' HF]; subst. constructor; [apply IH, HS'|].
+    apply (Sub_Forall (R (clr_new x)) l' l); [intros y Hy; apply Hr, Hy|exact H|].
+    eapply Forall_impl; [|exact HF]. intros y Hy. apply Hl, Hy.
+Qed.
+
+(* ------------------------------------------------------------------------------------------- *)
+(* lyd_validate_new only drops nodes and clears LYD_NEW                                          *)
+(* ------------------------------------------------------------------------------------------- *)
+Section VnewSub.
+  Variable sch : schema.
+
+  Lemma validate_cases_Sub path p pre c f r : validate_cases sch path p pre c f = Ok r -> Sub (fst r) f.
+  Proof.
+    intro H. unfold validate_cases in H. apply bind_ok in H. destruct H as [[o n] [_ H]].
+    destruct o as [ko|]; [destruct n|]; inversion H; subst; cbn [fst]; try apply Sub_refl. apply Sub_filter.
+  Qed.
+
+  Lemma choice_r_Sub path p f0 : forall fuel pre st r, Sub (fst st) f0 -> choice_r fuel sch path p pre st = Ok r -> Sub (fst r) f0.
+  Proof.
+    induction fuel as [|fuel IH]; intros pre st r Hs H; cbn [choice_r] in H; [discriminate|].
+    apply (fold_res_inv _ (fun s => Sub (fst s) f0) _) with (s := st) (r := r) in H; [exact H| |exact Hs].
+    intros s c r' _ Hs' Hc. apply bind_ok in Hc. destruct Hc as [a [Ha Hc]].
+    apply validate_cases_Sub in Ha.
+    apply (fold_res_inv _ (fun s => Sub (fst s) f0) _) with (s := (fst a, snd s ++ snd a)) (r := r') in Hc;
+      [exact Hc| |cbn [fst]; apply (Sub_trans _ _ Hs' _ Ha)].
+    intros s'' k r'' _ Hs'' Hk. apply (IH _ _ _ Hs'' Hk).
+  Qed.
+
+  Lemma autodel_dflt_Sub bef cur aft b gn r ds :
+    autodel_dflt sch bef cur aft = (b, gn, r, ds) -> Sub b bef /\ Sub r aft.
+  Proof.
+    unfold autodel_dflt. intro H.
+    destruct (existsb (is_expl_of (d_sid cur)) (bef ++ cur :: aft)).
+    - inversion H; subst. split; apply Sub_filter.
+    - destruct (kind_of sch (d_sid cur)) as [[|]| | | |];
+        try (destruct (find (is_olddflt_of (d_sid cur)) bef);
+             [inversion H; subst; split; [apply Sub_remove_first|apply Sub_refl]|
+              destruct (find (is_olddflt_of (d_sid cur)) aft); inversion H; subst; split;
+              try apply Sub_refl; apply Sub_remove_first]).
+      inversion H; subst. split; apply Sub_refl.
+  Qed.
+
+  Lemma vnew_loop_Sub path f0 : forall fuel bef aft last acc r,
+    Sub (bef ++ aft) f0 -> vnew_loop fuel sch path bef aft last acc = Ok r -> Sub (fst r) f0.
+  Proof.
+    induction fuel as [|fuel IH]; intros bef aft last acc r Hs H; cbn [vnew_loop] in H; [discriminate|].
+    destruct aft as [|cur rest]; [inversion H; subst; cbn [fst]; rewrite app_nil_r in Hs; exact Hs|].
+    destruct (d_new cur || d_dflt cur); cbn [negb] in H.
+    2: { apply (IH _ _ _ _ _ ) in H; [exact H|]. rewrite <- app_assoc. exact Hs. }
+    match type of H with context [match ?X with _ => _ end] =>
+      match X with (if _ then _ else _) => destruct X as [[[bef1 gone] rest1] dels] eqn:Ea end end.
+    assert (Hsub : Sub bef1 bef /\ Sub rest1 rest).
+    { destruct (has_default sch (d_sid cur) && negb (opt_is last (d_sid cur)) && d_new cur).
+      - apply (autodel_dflt_Sub _ _ _ _ _ _ _ Ea).
+      - inversion Ea; subst. split; apply Sub_refl. }
+    destruct Hsub as [Hs1 Hs2].
+    assert (Hdrop : Sub (bef1 ++ rest1) f0).
+    { apply (Sub_trans _ _ Hs). apply Sub_app; [exact Hs1|apply Sub_drop; exact Hs2]. }
+    destruct gone; [apply (IH _ _ _ _ _ Hdrop H)|].
+    destruct (d_new cur && negb (dup_inst sch (d_sid cur)) && existsb (same_inst sch cur) (bef1 ++ rest1)); [discriminate|].
+    destruct (d_dflt (clr_new cur) && case_leftover sch (bef1 ++ clr_new cur :: rest1) (clr_new cur)).
+    - apply (IH _ _ _ _ _ Hdrop H).
+    - apply (IH _ _ _ _ _) in H; [exact H|]. rewrite <- app_assoc. cbn [app].
+      apply (Sub_trans _ _ Hs). apply Sub_app; [exact Hs1|apply Sub_clr; exact Hs2].
+  Qed.
+
+  Lemma vnew_Sub path p f r : vnew sch path p f = Ok r -> Sub (fst r) f.
+  Proof.
+    intro H. unfold vnew in H. apply bind_ok in H. destruct H as [st [Hc H]].
+    apply (choice_r_Sub path p f _ _ (f, []) st (Sub_refl f)) in Hc.
+    apply (vnew_loop_Sub path f _ [] (fst st) None (snd st) r Hc H).
+  Qed.
+End VnewSub.
+
+(* ------------------------------------------------------------------------------------------- *)
+(* the canonical form does not look at metadata                                                  *)
+(* ------------------------------------------------------------------------------------------- *)
+Lemma clr_new_fields x : d_sid (clr_new x) = d_sid x /\ d_val (clr_new x) = d_val x /\ d_dflt (clr_new x) = d_dflt x /\
+                         d_ch (clr_new x) = d_ch x.
+Proof. destruct x; repeat split. Qed.
+
+Lemma node_cmp_ext sch a a' b b' :
+  d_sid a' = d_sid a -> d_val a' = d_val a -> d_ch a' = d_ch a ->
+  d_sid b' = d_sid b -> d_val b' = d_val b -> d_ch b' = d_ch b ->
+  node_cmp sch a' b' = node_cmp sch a b.
+Proof. intros H1 H2 H3 H4 H5 H6. unfold node_cmp, node_key. rewrite H1, H2, H3, H4, H5, H6. reflexivity. Qed.
+
+Lemma sib_ok_ext sch a a' b b' :
+  d_sid a' = d_sid a -> d_val a' = d_val a -> d_ch a' = d_ch a ->
+  d_sid b' = d_sid b -> d_val b' = d_val b -> d_ch b' = d_ch b ->
+  sib_ok sch a b -> sib_ok sch a' b'.
+Proof.
+  intros H1 H2 H3 H4 H5 H6. unfold sib_ok. rewrite (node_cmp_ext sch a a' b b' H1 H2 H3 H4 H5 H6), H1, H4. exact (fun H => H).
+Qed.
+
+Lemma CanonN_ext sch p n n' :
+  d_sid n' = d_sid n -> d_ch n' = d_ch n -> CanonN sch p n -> CanonN sch p n'.
+Proof.
+  destruct n as [s v d m ch], n' as [s' v' d' m' ch']. cbn [d_sid d_ch]. intros -> ->.
+  rewrite !CanonN_unfold. exact (fun H => H).
+Qed.
+
+Lemma Sub_CanonAt sch p l' l : Sub l' l -> CanonAt sch p l -> CanonAt sch p l'.
+Proof.
+  intros H Hc. pose proof (canon_strongly_sorted sch p l Hc) as HS. destruct Hc as [_ HF].
+  split.
+  - assert (HS' : StronglySorted (sib_ok sch) l').
+    { apply (Sub_sorted (sib_ok sch) l' l); [| |exact H|exact HS].
+      - intros x y Hxy. destruct (clr_new_fields x) as [E1 [E2 [_ E4]]].
+        apply (sib_ok_ext sch x (clr_new x) y y E1 E2 E4 eq_refl eq_refl eq_refl Hxy).
+      - intros x y Hxy. destruct (clr_new_fields y) as [E1 [E2 [_ E4]]].
+        apply (sib_ok_ext sch x x y (clr_new y) eq_refl eq_refl eq_refl E1 E2 E4 Hxy). }
+    clear -HS'. induction HS' as [|a l HS IH HF]; [constructor|].
+    destruct l as [|b l]; [constructor|]. constructor; [inversion HF; assumption|exact IH].
+  - apply (Sub_Forall (CanonN sch p) l' l); [|exact H|exact HF].
+    intros x Hx. destruct (clr_new_fields x) as [E1 [_ [_ E4]]]. apply (CanonN_ext sch p x (clr_new x) E1 E4 Hx).
+Qed.
+
+(* ------------------------------------------------------------------------------------------- *)
+(* lyd_new_implicit keeps the sibling list canonical (Tree.insert_node_canon)                    *)
+(* ------------------------------------------------------------------------------------------- *)
+
+Lemma lookup_unique sch : sids_uniqb sch = true -> forall s i, In (s, i) sch -> lookup sch s = Some i.
+Proof.
+  unfold sids_uniqb. induction sch as [|[k j] r IH]; intros Hu s i Hin; [destruct Hin|].
+  cbn [map fst nodupb] in Hu. apply andb_true_iff in Hu. destruct Hu as [Hn Hu]. cbn [lookup].
+  destruct Hin as [E|Hin].
+  - inversion E; subst. rewrite N.eqb_refl. reflexivity.
+  - destruct (k =? s) eqn:Ek; [|apply IH; assumption].
+    apply N.eqb_eq in Ek. subst k. exfalso. apply negb_true_iff in Hn.
+    rewrite existsb_false_forall in Hn. specialize (Hn s). rewrite N.eqb_refl in Hn.
+    assert (In s (map fst r)) by (apply in_map_iff; exists (s, i); split; [reflexivity|exact Hin]). specialize (Hn H). discriminate.
+Qed.
+
+Lemma schildren_lookup sch p s : sids_uniqb sch = true -> In s (schildren sch p) ->
+  exists i, lookup sch s = Some i /\ si_parent i = p /\ In (s, i) sch.
+Proof.
+  intros Hu Hs. unfold schildren in Hs. apply in_map_iff in Hs. destruct Hs as [[s' i] [E Hin]]. cbn [fst] in E. subst s'.
+  apply filter_In in Hin. destruct Hin as [Hin Hp]. cbn [snd] in Hp. apply opt_sid_eqb_eq in Hp.
+  exists i. split; [apply (lookup_unique sch Hu s i Hin)|split; assumption].
+Qed.
+
+Lemma schema_okb_keys sch s i : schema_okb sch = true -> In (s, i) sch ->
+  match si_kind i with KList => True | _ => si_keys i = [] end.
+Proof.
+  intros Hk Hin. unfold schema_okb in Hk. rewrite forallb_forall in Hk. specialize (Hk (s, i) Hin). cbn beta iota in Hk.
+  apply andb_true_iff in Hk. destruct Hk as [Hk _]. apply andb_true_iff in Hk. destruct Hk as [Hk _].
+  apply andb_true_iff in Hk. destruct Hk as [Hk _].
+  destruct (si_kind i); try exact I; destruct (si_keys i); try reflexivity; discriminate.
+Qed.
+
+Section ImplCanon.
+  Variable sch : schema.
+  Hypothesis Hu : sids_uniqb sch = true.
+  Hypothesis Hk : schema_okb sch = true.
+
+  Lemma mk_dflt_canon p s v : In s (schildren sch p) ->
+    match kind_of sch s with KList => False | _ => True end -> CanonN sch p (mk_dflt s v).
+  Proof.
+    intros Hs Hkind. unfold mk_dflt. rewrite CanonN_unfold.
+    destruct (schildren_lookup sch p s Hu Hs) as [i [Hl [Hp Hin]]].
+    split; [|split; constructor].
+    exists i. split; [exact Hl|]. split; [exact Hp|]. split; [|intros _; reflexivity].
+    pose proof (schema_okb_keys sch s i Hk Hin) as Hkeys.
+    unfold kind_of, sget in Hkind. rewrite Hl in Hkind.
+    destruct (si_kind i); try contradiction; rewrite Hkeys; intros k [].
+  Qed.
+
+  Lemma add_dflt_canon path p s st v :
+    CanonAt sch p (fst st) -> In s (schildren sch p) -> match kind_of sch s with KList => False | _ => True end ->
+    (multi sch s = true \/ has_sid (fst st) s = false) ->
+    CanonAt sch p (fst (add_dflt sch path s st v)).
+  Proof.
+    intros Hc Hs Hkind Hm. unfold add_dflt. cbn [fst].
+    apply insert_node_canon; [exact Hc|apply mk_dflt_canon; assumption|].
+    unfold insertable, mk_dflt. cbn [d_sid]. destruct Hm as [Hm|Hm]; [left; exact Hm|right].
+    intros b Hb E. unfold has_sid in Hm. rewrite existsb_false_forall in Hm. specialize (Hm b Hb).
+    apply N.eqb_neq in Hm. contradiction.
+  Qed.
+
+  Lemma impl_snode_canon ns path p st s :
+    CanonAt sch p (fst st) -> In s (schildren sch p) -> CanonAt sch p (fst (impl_snode sch ns path st s)).
+  Proof.
+    intros Hc Hs. unfold impl_snode. destruct (ns && negb (si_config (sget sch s))); [exact Hc|].
+    destruct (has_sid (fst st) s) eqn:Eh; [exact Hc|].
+    destruct (kind_of sch s) as [[|]| | | |] eqn:Ek; try exact Hc.
+    - apply add_dflt_canon; [exact Hc|exact Hs|rewrite Ek; exact I|right; exact Eh].
+    - destruct (si_dflts (sget sch s)); [exact Hc|].
+      apply add_dflt_canon; [exact Hc|exact Hs|rewrite Ek; exact I|right; exact Eh].
+    - apply (fold_left_inv _ (fun s' => CanonAt sch p (fst s'))); [|exact Hc].
+      intros st' v _ Hc'. apply add_dflt_canon; [exact Hc'|exact Hs|rewrite Ek; exact I|left].
+      unfold multi. rewrite Ek. reflexivity.
+  Qed.
+
+  Lemma implicit_canon ns path p : forall fuel pre st r,
+    CanonAt sch p (fst st) -> implicit fuel sch ns path p pre st = Ok r -> CanonAt sch p (fst r).
+  Proof.
+    induction fuel as [|fuel IH]; intros pre st r Hs H; cbn [implicit] in H; [discriminate|].
+    apply bind_ok in H. destruct H as [st1 [H1 H]]. inversion H; subst.
+    apply (fold_left_inv _ (fun s' => CanonAt sch p (fst s'))).
+    - intros s' x Hx Hs'. apply impl_snode_canon; [exact Hs'|]. unfold snodes_at in Hx. apply filter_In in Hx. apply Hx.
+    - apply (fold_res_inv _ (fun s => CanonAt sch p (fst s)) _) with (s := st) (r := st1) in H1; [exact H1| |exact Hs].
+      intros s c r' _ Hs' Hc.
+      destruct (find (in_choice sch pre c) (fst s)) as [n|].
+      + destruct (n_case sch pre c n); [apply (IH _ _ _ Hs' Hc)|inversion Hc; subst; exact Hs'].
+      + destruct (dflt_case sch p pre c); [apply (IH _ _ _ Hs' Hc)|inversion Hc; subst; exact Hs'].
+  Qed.
+End ImplCanon.
+
+(* ------------------------------------------------------------------------------------------- *)
+(* key leaves survive a level unchanged                                                          *)
+(* ------------------------------------------------------------------------------------------- *)
+Definition kvals (k : sid) (l : forest) : list bytes := map d_val (filter (fun n => d_sid n =? k) l).
+
+Definition plain (sch : schema) (k : sid) : Prop := has_default sch k = false /\ chainf sch k = [].
+
+
+Lemma kvals_app k a b : kvals k (a ++ b) = kvals k a ++ kvals k b.
+Proof. unfold kvals. rewrite filter_app, map_app. reflexivity. Qed.
+
+Lemma child_val_kvals ch k : child_val ch k = hd [] (kvals k ch).
+Proof.
+  unfold child_val, find_sid, kvals. induction ch as [|c ch IH]; cbn [find filter map hd]; [reflexivity|].
+  destruct (d_sid c =? k); cbn [map hd]; [reflexivity|exact IH].
+Qed.
+
+Lemma kvals_filter_other k q l : (forall n, In n l -> d_sid n = k -> q n = true) -> kvals k (filter q l) = kvals k l.
+Proof.
+  intro H. unfold kvals. induction l as [|n l IH]; cbn [filter]; [reflexivity|].
+  assert (IH' := IH (fun x Hx => H x (or_intror Hx))).
+  destruct (q n) eqn:Eq; cbn [filter]; destruct (d_sid n =? k) eqn:Ek; cbn [map]; try (rewrite IH'; reflexivity).
+  apply N.eqb_eq in Ek. rewrite (H n (or_introl eq_refl) Ek) in Eq. discriminate.
+Qed.
+
+Lemma kvals_remove_first_other k q l : (forall n, In n l -> d_sid n = k -> q n = false) -> kvals k (remove_first q l) = kvals k l.
+Proof.
+  intro H. unfold kvals. induction l as [|n l IH]; cbn [remove_first]; [reflexivity|].
+  assert (IH' := IH (fun x Hx => H x (or_intror Hx))).
+  destruct (q n) eqn:Eq.
+  - cbn [filter]. destruct (d_sid n =? k) eqn:Ek; [|reflexivity].
+    apply N.eqb_eq in Ek. rewrite (H n (or_introl eq_refl) Ek) in Eq. discriminate.
+  - cbn [filter]. destruct (d_sid n =? k); cbn [map]; rewrite IH'; reflexivity.
+Qed.
+
+Lemma kvals_insert_other sch k f n : d_sid n <> k -> kvals k (insert_node sch f n) = kvals k f.
+Proof.
+  intro Hn. apply N.eqb_neq in Hn. unfold kvals. induction f as [|b r IH]; cbn [insert_node filter].
+  - rewrite Hn. reflexivity.
+  - destruct (goes_before sch n b); cbn [filter]; [rewrite Hn; reflexivity|].
+    destruct (d_sid b =? k); cbn [map]; rewrite IH; reflexivity.
+Qed.
+
+Section KeysKept.
+  Variable sch : schema.
+  Variable k : sid.
+  Hypothesis Hp : plain sch k.
+
+  Lemma in_case_plain pre c kk n : d_sid n = k -> in_case sch pre c kk n = false.
+  Proof.
+    intro E. unfold in_case, n_case, s_case. rewrite E. destruct Hp as [_ Hc]. rewrite Hc.
+    destruct pre; reflexivity.
+  Qed.
+
+  Lemma validate_cases_kvals path p pre c f r : validate_cases sch path p pre c f = Ok r -> kvals k (fst r) = kvals k f.
+  Proof.
+    intro H. unfold validate_cases in H. apply bind_ok in H. destruct H as [[o n] [_ H]].
+    destruct o as [ko|]; [destruct n|]; inversion H; subst; cbn [fst]; try reflexivity.
+    apply kvals_filter_other. intros x _ E. rewrite (in_case_plain pre c ko x E). reflexivity.
+  Qed.
+
+  Lemma choice_r_kvals path p v0 : forall fuel pre st r,
+    kvals k (fst st) = v0 -> choice_r fuel sch path p pre st = Ok r -> kvals k (fst r) = v0.
+  Proof.
+    induction fuel as [|fuel IH]; intros pre st r Hs H; cbn [choice_r] in H; [discriminate|].
+    apply (fold_res_inv _ (fun s => kvals k (fst s) = v0) _) with (s := st) (r := r) in H; [exact H| |exact Hs].
+    intros s c r' _ Hs' Hc. apply bind_ok in Hc. destruct Hc as [a [Ha Hc]].
+    apply validate_cases_kvals in Ha.
+    apply (fold_res_inv _ (fun s => kvals k (fst s) = v0) _) with (s := (fst a, snd s ++ snd a)) (r := r') in Hc;
+      [exact Hc| |cbn [fst]; congruence].
+    intros s'' kk r'' _ Hs'' Hk. apply (IH _ _ _ Hs'' Hk).
+  Qed.
+
+  Lemma autodel_dflt_kvals bef cur aft b gn r ds : d_sid cur <> k ->
+    autodel_dflt sch bef cur aft = (b, gn, r, ds) -> kvals k b = kvals k bef /\ kvals k r = kvals k aft.
+  Proof.
+    intros Hc. unfold autodel_dflt. intro H.
+    assert (Hq1 : forall l, kvals k (filter (fun n => negb (is_dflt_of (d_sid cur) n)) l) = kvals k l).
+    { intro l. apply kvals_filter_other. intros n _ E. unfold is_dflt_of. rewrite E.
+      assert (k =? d_sid cur = false) by (apply N.eqb_neq; congruence). rewrite H0. reflexivity. }
+    assert (Hq2 : forall l, kvals k (remove_first (is_olddflt_of (d_sid cur)) l) = kvals k l).
+    { intro l. apply kvals_remove_first_other. intros n _ E. unfold is_olddflt_of. rewrite E.
+      assert (k =? d_sid cur = false) by (apply N.eqb_neq; congruence). rewrite H0. reflexivity. }
+    destruct (existsb (is_expl_of (d_sid cur)) (bef ++ cur :: aft)).
+    - inversion H; subst. split; apply Hq1.
+    - destruct (kind_of sch (d_sid cur)) as [[|]| | | |];
+        try (destruct (find (is_olddflt_of (d_sid cur)) bef);
+             [inversion H; subst; split; [apply Hq2|reflexivity]|
+              destruct (find (is_olddflt_of (d_sid cur)) aft); inversion H; subst; split; try reflexivity; apply Hq2]).
+      inversion H; subst. split; reflexivity.
+  Qed.
+
+  Lemma kvals_clr_new l cur r : kvals k (l ++ clr_new cur :: r) = kvals k (l ++ cur :: r).
+  Proof.
+    rewrite !kvals_app. f_equal. unfold kvals. cbn [filter]. destruct cur as [s v d m ch]. cbn [clr_new d_sid].
+    destruct (s =? k); reflexivity.
+  Qed.
+
+  Lemma vnew_loop_kvals path v0 : forall fuel bef aft last acc r,
+    kvals k (bef ++ aft) = v0 -> vnew_loop fuel sch path bef aft last acc = Ok r -> kvals k (fst r) = v0.
+  Proof.
+    induction fuel as [|fuel IH]; intros bef aft last acc r Hs H; cbn [vnew_loop] in H; [discriminate|].
+    destruct aft as [|cur rest]; [injection H as E; rewrite <- E; cbn [fst]; rewrite app_nil_r in Hs; exact Hs|].
+    destruct (d_new cur || d_dflt cur); cbn [negb] in H.
+    2: { apply (IH _ _ _ _ _ ) in H; [exact H|]. rewrite <- app_assoc. exact Hs. }
+    match type of H with context [match ?X with _ => _ end] =>
+      match X with (if _ then _ else _) => destruct X as [[[bef1 gone] rest1] dels] eqn:Ea end end.
+    destruct (N.eq_dec (d_sid cur) k) as [Ek|Ek].
+    - (* the current node is an instance of k: nothing is auto-deleted for it *)
+      destruct Hp as [Hd Hc]. rewrite Ek, Hd in Ea. cbn [andb] in Ea. inversion Ea; subst bef1 gone rest1 dels.
+      destruct (d_new cur && negb (dup_inst sch (d_sid cur)) && existsb (same_inst sch cur) (bef ++ rest)); [discriminate|].
+      assert (El : case_leftover sch (bef ++ clr_new cur :: rest) (clr_new cur) = false).
+      { unfold case_leftover. destruct (clr_new_fields cur) as [E1 _]. rewrite E1, Ek, Hc. reflexivity. }
+      rewrite El, andb_false_r in H.
+      apply (IH _ _ _ _ _) in H; [exact H|]. rewrite <- app_assoc. cbn [app]. rewrite kvals_clr_new. exact Hs.
+    - assert (Hsub : kvals k bef1 = kvals k bef /\ kvals k rest1 = kvals k rest).
+      { destruct (has_default sch (d_sid cur) && negb (opt_is last (d_sid cur)) && d_new cur).
+        - apply (autodel_dflt_kvals _ _ _ _ _ _ _ Ek Ea).
+        - inversion Ea; subst. split; reflexivity. }
+      destruct Hsub as [Hs1 Hs2].
+      assert (Hcur : kvals k [cur] = []).
+      { unfold kvals. cbn [filter]. apply N.eqb_neq in Ek. rewrite Ek. reflexivity. }
+      assert (Hdrop : kvals k (bef1 ++ rest1) = v0).
+      { rewrite kvals_app, Hs1, Hs2. rewrite <- Hs. replace (cur :: rest) with ([cur] ++ rest) by reflexivity.
+        rewrite !kvals_app, Hcur. reflexivity. }
+      destruct gone; [apply (IH _ _ _ _ _ Hdrop H)|].
+      destruct (d_new cur && negb (dup_inst sch (d_sid cur)) && existsb (same_inst sch cur) (bef1 ++ rest1)); [discriminate|].
+      destruct (d_dflt (clr_new cur) && case_leftover sch (bef1 ++ clr_new cur :: rest1) (clr_new cur)).
+      + apply (IH _ _ _ _ _ Hdrop H).
+      + apply (IH _ _ _ _ _) in H; [exact H|]. rewrite <- app_assoc. cbn [app]. rewrite kvals_clr_new.
+        replace (cur :: rest1) with ([cur] ++ rest1) by reflexivity.
+        rewrite !kvals_app, Hcur, Hs1, Hs2. rewrite <- Hs.
+        replace (cur :: rest) with ([cur] ++ rest) by reflexivity. rewrite !kvals_app, Hcur. reflexivity.
+  Qed.
+
+  Lemma vnew_kvals path p f r : vnew sch path p f = Ok r -> kvals k (fst r) = kvals k f.
+  Proof.
+    intro H. unfold vnew in H. apply bind_ok in H. destruct H as [st [Hc H]].
+    apply (choice_r_kvals path p (kvals k f) _ _ (f, []) st eq_refl) in Hc.
+    apply (vnew_loop_kvals path (kvals k f) _ [] (fst st) None (snd st) r Hc H).
+  Qed.
+
+  Lemma impl_snode_kvals ns path st s : kvals k (fst (impl_snode sch ns path st s)) = kvals k (fst st).
+  Proof.
+    unfold impl_snode. destruct (ns && negb (si_config (sget sch s))); [reflexivity|].
+    destruct (has_sid (fst st) s); [reflexivity|].
+    assert (Hadd : forall st' v, has_default sch s = true -> kvals k (fst (add_dflt sch path s st' v)) = kvals k (fst st')).
+    { intros st' v Hd. unfold add_dflt. cbn [fst]. apply kvals_insert_other. unfold mk_dflt. cbn [d_sid].
+      intro E. subst s. destruct Hp as [Hd' _]. congruence. }
+    destruct (kind_of sch s) as [[|]| | | |] eqn:Ek; try reflexivity.
+    - apply Hadd. unfold has_default. rewrite Ek. reflexivity.
+    - destruct (si_dflts (sget sch s)) eqn:Ed; [reflexivity|]. apply Hadd. unfold has_default. rewrite Ek, Ed. reflexivity.
+    - destruct (si_dflts (sget sch s)) as [|v vs] eqn:Ed; [reflexivity|].
+      apply (fold_left_inv _ (fun s' => kvals k (fst s') = kvals k (fst st))); [|reflexivity].
+      intros st' v' _ Hs'. rewrite Hadd; [exact Hs'|]. unfold has_default. rewrite Ek, Ed. reflexivity.
+  Qed.
+
+  Lemma implicit_kvals ns path p v0 : forall fuel pre st r,
+    kvals k (fst st) = v0 -> implicit fuel sch ns path p pre st = Ok r -> kvals k (fst r) = v0.
+  Proof.
+    induction fuel as [|fuel IH]; intros pre st r Hs H; cbn [implicit] in H; [discriminate|].
+    apply bind_ok in H. destruct H as [st1 [H1 H]]. inversion H; subst.
+    apply (fold_left_inv _ (fun s' => kvals k (fst s') = kvals k (fst st))).
+    - intros s' x _ Hs'. rewrite impl_snode_kvals. exact Hs'.
+    - apply (fold_res_inv _ (fun s => kvals k (fst s) = kvals k (fst st)) _) with (s := st) (r := st1) in H1; [exact H1| |reflexivity].
+      intros s c r' _ Hs' Hc.
+      destruct (find (in_choice sch pre c) (fst s)) as [n|].
+      + destruct (n_case sch pre c n); [apply (IH _ _ _ Hs' Hc)|inversion Hc; subst; exact Hs'].
+      + destruct (dflt_case sch p pre c); [apply (IH _ _ _ Hs' Hc)|inversion Hc; subst; exact Hs'].
+  Qed.
+
+  Lemma descend_kvals rec path : forall l acc r, descend rec sch path l acc = Ok r -> kvals k (fst r) = kvals k l.
+  Proof.
+    induction l as [|n l IH]; intros acc r H; cbn [descend] in H.
+    - inversion H; subst. reflexivity.
+    - apply bind_ok in H. destruct H as [n' [Hn' H]]. apply bind_ok in H. destruct H as [r' [Hr' H]].
+      inversion H; subst. cbn [fst]. apply IH in Hr'.
+      assert (E : d_sid (fst n') = d_sid n /\ d_val (fst n') = d_val n).
+      { destruct (is_inner sch (d_sid n)).
+        - apply bind_ok in Hn'. destruct Hn' as [c [_ Hn']]. inversion Hn'; subst. cbn [fst]. destruct n; split; reflexivity.
+        - inversion Hn'; subst. split; reflexivity. }
+      destruct E as [E1 E2]. unfold kvals in *. cbn [filter]. rewrite E1. destruct (d_sid n =? k); cbn [map]; rewrite ?E2, Hr'; reflexivity.
+  Qed.
+
+  Lemma level_kvals val ns fuel path p f r : level fuel val ns sch path p f = Ok r -> kvals k (fst r) = kvals k f.
+  Proof.
+    destruct fuel as [|fuel]; intro H; cbn [level] in H; [discriminate|].
+    apply bind_ok in H. destruct H as [st1 [H1 H]]. apply bind_ok in H. destruct H as [st2 [H2 H]].
+    assert (E1 : kvals k (fst st1) = kvals k f).
+    { destruct val; [apply (vnew_kvals _ _ _ _ H1)|inversion H1; subst; reflexivity]. }
+    apply (implicit_kvals ns path p (kvals k f) _ _ _ _ E1) in H2.
+    apply descend_kvals in H. congruence.
+  Qed.
+End KeysKept.
+
+(* ------------------------------------------------------------------------------------------- *)
+(* the DFS keeps the tree canonical                                                              *)
+(* ------------------------------------------------------------------------------------------- *)
+Definition Rel (sch : schema) (n n' : dnode) : Prop :=
+  d_sid n' = d_sid n /\ d_val n' = d_val n /\
+  forall k, In k (si_keys (sget sch (d_sid n))) -> child_val (d_ch n') k = child_val (d_ch n) k.
+
+Lemma Rel_refl sch n : Rel sch n n.
+Proof. repeat split. Qed.
+
+Lemma node_key_rel sch n n' : Rel sch n n' -> node_key sch n' = node_key sch n.
+Proof.
+  intros [E1 [E2 E3]]. unfold node_key. rewrite E1, E2.
+  destruct (si_kind (sget sch (d_sid n))); try reflexivity.
+  apply map_ext_in. intros k Hk. rewrite (E3 k Hk). reflexivity.
+Qed.
+
+Lemma sib_ok_rel sch a a' b b' : Rel sch a a' -> Rel sch b b' -> sib_ok sch a b -> sib_ok sch a' b'.
+Proof.
+  intros Ha Hb. unfold sib_ok, node_cmp. rewrite (node_key_rel sch a a' Ha), (node_key_rel sch b b' Hb).
+  destruct Ha as [Ea _], Hb as [Eb _]. rewrite Ea, Eb. exact (fun H => H).
+Qed.
+
+Lemma Adj_rel sch l l' : Forall2 (Rel sch) l l' -> Adj (sib_ok sch) l -> Adj (sib_ok sch) l'.
+Proof.
+  intro HF. induction HF as [|a a' l l' Ha HF IH]; intro HA; [constructor|].
+  destruct HF as [|b b' l l' Hb HF]; [constructor|].
+  constructor; [apply (sib_ok_rel sch a a' b b' Ha Hb), (Adj_head _ _ _ _ HA)|apply IH, (Adj_tail _ _ _ HA)].
+Qed.
+
+Lemma kvals_nonempty k l : kvals k l <> [] <-> exists c, In c l /\ d_sid c = k.
+Proof.
+  unfold kvals. split.
+  - intro H. destruct (filter (fun n => d_sid n =? k) l) as [|c r] eqn:E; [contradiction|].
+    assert (Hin : In c (filter (fun n => d_sid n =? k) l)) by (rewrite E; left; reflexivity).
+    apply filter_In in Hin. destruct Hin as [Hin Hs]. apply N.eqb_eq in Hs. exists c. split; assumption.
+  - intros [c [Hin Hs]] E.
+    assert (Hf : In c (filter (fun n => d_sid n =? k) l)) by (apply filter_In; split; [exact Hin|apply N.eqb_eq; exact Hs]).
+    destruct (filter (fun n => d_sid n =? k) l); [destruct Hf|discriminate].
+Qed.
+
+Section LevelCanon.
+  Variable sch : schema.
+  Hypothesis Hu : sids_uniqb sch = true.
+  Hypothesis Hk : schema_okb sch = true.
+  Hypothesis Hkeys : keys_plainb sch = true.
+
+  Lemma keys_plain s i k : lookup sch s = Some i -> In k (si_keys i) -> plain sch k.
+  Proof.
+    intros Hl Hin. unfold keys_plainb in Hkeys. rewrite forallb_forall in Hkeys.
+    specialize (Hkeys (s, i) (lookup_In sch s i Hl)). cbn [snd] in Hkeys. rewrite forallb_forall in Hkeys.
+    specialize (Hkeys k Hin). apply andb_true_iff in Hkeys. destruct Hkeys as [H1 H2].
+    split; [apply negb_true_iff; exact H1|apply is_nil_true; exact H2].
+  Qed.
+
+  (* replacing the children of a canonical node by a canonical list with the same key leaves *)
+  Lemma set_ch_canon p n ch' :
+    CanonN sch p n -> CanonAt sch (Some (d_sid n)) ch' ->
+    (forall k, plain sch k -> kvals k ch' = kvals k (d_ch n)) ->
+    is_inner sch (d_sid n) = true ->
+    CanonN sch p (set_ch n ch') /\ Rel sch n (set_ch n ch').
+  Proof.
+    destruct n as [s v d m ch]. cbn [d_sid d_ch set_ch]. rewrite !CanonN_unfold.
+    intros [[i [Hl [Hp [Hkp Ht]]]] _] [HA HF] Hkv Hin.
+    split.
+    - split; [|split; assumption].
+      exists i. split; [exact Hl|]. split; [exact Hp|]. split.
+      + intros k Hkin. apply kvals_nonempty. rewrite (Hkv k (keys_plain s i k Hl Hkin)). apply kvals_nonempty. apply Hkp, Hkin.
+      + intro Hterm. exfalso. unfold is_inner, kind_of, sget in Hin. rewrite Hl in Hin. destruct (si_kind i); discriminate.
+    - split; [reflexivity|]. split; [reflexivity|]. cbn [d_sid d_ch]. intros k Hkin.
+      unfold sget in Hkin. rewrite Hl in Hkin. rewrite !child_val_kvals, (Hkv k (keys_plain s i k Hl Hkin)). reflexivity.
+  Qed.
+
+  Lemma descend_canon (rec : list pstep -> option sid -> forest -> res (forest * list change)) path p :
+    (forall pa s f c, CanonAt sch (Some s) f -> rec pa (Some s) f = Ok c ->
+       CanonAt sch (Some s) (fst c) /\ forall k, plain sch k -> kvals k (fst c) = kvals k f) ->
+    forall l acc r, Forall (CanonN sch p) l -> descend rec sch path l acc = Ok r ->
+      Forall (CanonN sch p) (fst r) /\ Forall2 (Rel sch) l (fst r).
+  Proof.
+    intros Hrec. induction l as [|n l IH]; intros acc r HF H; cbn [descend] in H.
+    - inversion H; subst. split; constructor.
+    - apply bind_ok in H. destruct H as [n' [Hn' H]]. apply bind_ok in H. destruct H as [r' [Hr' H]].
+      inversion H; subst. cbn [fst]. inversion HF as [|? ? Hn HF']; subst.
+      destruct (IH _ _ HF' Hr') as [H1 H2].
+      assert (Hx : CanonN sch p (fst n') /\ Rel sch n (fst n')).
+      { destruct (is_inner sch (d_sid n)) eqn:Ei.
+        - apply bind_ok in Hn'. destruct Hn' as [c [Hc Hn']]. inversion Hn'; subst. cbn [fst].
+          destruct (Hrec _ _ _ _ (CanonAt_children sch p n Hn) Hc) as [Hc1 Hc2].
+          apply set_ch_canon; assumption.
+        - inversion Hn'; subst. split; [exact Hn|apply Rel_refl]. }
+      destruct Hx as [Hx1 Hx2]. split; constructor; assumption.
+  Qed.
+
+  Lemma level_canon val ns : forall fuel path p f r,
+    CanonAt sch p f -> level fuel val ns sch path p f = Ok r -> CanonAt sch p (fst r).
+  Proof.
+    induction fuel as [|fuel IH]; intros path p f r Hc H; cbn [level] in H; [discriminate|].
+    apply bind_ok in H. destruct H as [st1 [H1 H]]. apply bind_ok in H. destruct H as [st2 [H2 H]].
+    assert (Hc1 : CanonAt sch p (fst st1)).
+    { destruct val; [apply (Sub_CanonAt sch p _ f (vnew_Sub sch _ _ _ _ H1) Hc)|inversion H1; subst; exact Hc]. }
+    apply (implicit_canon sch Hu Hk ns path p _ _ _ _ Hc1) in H2.
+    destruct H2 as [HA HF].
+    destruct (descend_canon (level fuel val ns sch) path p
+                (fun pa s f' c Hf' Hcc => conj (IH pa (Some s) f' c Hf' Hcc)
+                                               (fun k Hpl => level_kvals sch k Hpl val ns fuel pa (Some s) f' c Hcc))
+                _ _ _ HF H) as [H3 H4].
+    split; [apply (Adj_rel sch _ _ H4 HA)|exact H3].
+  Qed.
+End LevelCanon.
+
+(* ------------------------------------------------------------------------------------------- *)
+(* lyd_validate_final_r only sets default flags                                                  *)
+(* ------------------------------------------------------------------------------------------- *)
+Lemma map_res_Forall2 {A} (f : A -> res A) (Q : A -> A -> Prop) (l r : list A) :
+  (forall x y, In x l -> f x = Ok y -> Q x y) -> map_res f l = Ok r -> Forall2 Q l r.
+Proof.
+  revert r. induction l as [|x l IH]; intros r Hf H; cbn [map_res] in H.
+  - inversion H; subst. constructor.
+  - apply bind_ok in H. destruct H as [x' [Hx H]]. apply bind_ok in H. destruct H as [r' [Hr H]]. inversion H; subst.
+    constructor; [apply (Hf x x' (or_introl eq_refl) Hx)|apply (IH r' (fun a b Ha Hb => Hf a b (or_intror Ha) Hb) Hr)].
+Qed.
+
+Lemma Forall2_Rel_kvals sch k l l' : Forall2 (Rel sch) l l' -> kvals k l' = kvals k l.
+Proof.
+  induction 1 as [|a a' l l' [E1 [E2 _]] HF IH]; [reflexivity|].
+  unfold kvals in *. cbn [filter]. rewrite E1. destruct (d_sid a =? k); cbn [map]; rewrite ?E2, IH; reflexivity.
+Qed.
+
+Lemma Forall2_and_l {A B} (P Q : A -> B -> Prop) l l' : Forall2 (fun x y => P x y /\ Q x y) l l' -> Forall2 P l l' /\ Forall2 Q l l'.
+Proof. induction 1 as [|a b l l' [H1 H2] HF [IH1 IH2]]; split; constructor; assumption. Qed.
+
+Lemma Forall2_Forall_r {A B} (P : B -> Prop) (Q : A -> B -> Prop) l l' : Forall2 (fun x y => P y /\ Q x y) l l' -> Forall P l'.
+Proof. induction 1 as [|a b l l' [H1 H2] HF IH]; constructor; assumption. Qed.
+
+Lemma final_node_canon sch n : forall p n', CanonN sch p n -> final_node sch n = Ok n' -> CanonN sch p n' /\ Rel sch n n'.
+Proof.
+  induction n as [s v d m ch IH] using dnode_ind'. intros p n' Hc H.
+  rewrite final_node_unfold in H. apply bind_ok in H. destruct H as [u [_ H]].
+  apply bind_ok in H. destruct H as [ch' [Hch H]]. inversion H; subst. clear H.
+  pose proof Hc as Hc0. rewrite CanonN_unfold in Hc. destruct Hc as [[i [Hl [Hp [Hkp Ht]]]] [HA HF]].
+  assert (H2 : Forall2 (fun x y => CanonN sch (Some s) y /\ Rel sch x y) ch ch').
+  { apply (map_res_Forall2 (final_node sch) _ ch ch'); [|exact Hch].
+    intros x y Hx Hy. rewrite Forall_forall in IH, HF. apply (IH x Hx (Some s) y (HF x Hx) Hy). }
+  pose proof (Forall2_Forall_r _ _ _ _ H2) as HF'.
+  destruct (Forall2_and_l _ _ _ _ H2) as [_ HR].
+  assert (Hbase : CanonN sch p (DN s v d m ch') /\ Rel sch (DN s v d m ch) (DN s v d m ch')).
+  { split.
+    - rewrite CanonN_unfold. split; [|split; [apply (Adj_rel sch _ _ HR HA)|exact HF']].
+      exists i. split; [exact Hl|]. split; [exact Hp|]. split.
+      + intros k Hkin. apply kvals_nonempty. rewrite (Forall2_Rel_kvals sch k _ _ HR). apply kvals_nonempty. apply Hkp, Hkin.
+      + intro Hterm. specialize (Ht Hterm). subst ch. inversion HR. reflexivity.
+    - split; [reflexivity|]. split; [reflexivity|]. cbn [d_ch]. intros k _.
+      rewrite !child_val_kvals, (Forall2_Rel_kvals sch k _ _ HR). reflexivity. }
+  destruct Hbase as [Hb1 Hb2].
+  assert (E : d_sid (np_set sch (DN s v d m ch')) = s /\ d_val (np_set sch (DN s v d m ch')) = v /\
+              d_ch (np_set sch (DN s v d m ch')) = ch').
+  { unfold np_set. destruct (is_np_cont sch (d_sid (DN s v d m ch')) && negb (d_dflt (DN s v d m ch')) &&
+                              forallb d_dflt (d_ch (DN s v d m ch'))); repeat split. }
+  destruct E as [E1 [E2 E3]]. split.
+  - apply (CanonN_ext sch p (DN s v d m ch')); [exact E1|exact E3|exact Hb1].
+  - destruct Hb2 as [_ [_ Hb3]]. split; [exact E1|]. split; [exact E2|]. rewrite E3. exact Hb3.
+Qed.
+
+Theorem validate_canon sch f g d :
+  sids_uniqb sch = true -> schema_okb sch = true -> keys_plainb sch = true ->
+  Canon sch f -> validate_all sch f = Ok (g, d) -> Canon sch g.
+Proof.
+  intros Hu Hk Hkeys Hc H. unfold validate_all in H. destruct f as [|n0 f0]; [inversion H; subst; apply CanonAt_nil|].
+  apply bind_ok in H. destruct H as [st [Hs H]]. apply bind_ok in H. destruct H as [gg [Hfin H]]. inversion H; subst.
+  apply (level_canon sch Hu Hk Hkeys true false _ _ _ _ _ Hc) in Hs. destruct Hs as [HA HF].
+  unfold final_forest in Hfin. apply bind_ok in Hfin. destruct Hfin as [u [_ Hfin]].
+  assert (H2 : Forall2 (fun x y => CanonN sch None y /\ Rel sch x y) (fst st) g).
+  { apply (map_res_Forall2 (final_node sch) _ (fst st) g); [|exact Hfin].
+    intros x y Hx Hy. rewrite Forall_forall in HF. apply (final_node_canon sch x None y (HF x Hx) Hy). }
+  split; [apply (Adj_rel sch _ _ (proj2 (Forall2_and_l _ _ _ _ H2)) HA)|apply (Forall2_Forall_r _ _ _ _ H2)].
+Qed.
+
+Theorem implicit_all_canon sch ns f g d :
+  sids_uniqb sch = true -> schema_okb sch = true -> keys_plainb sch = true ->
+  Canon sch f -> implicit_all sch ns f = Ok (g, d) -> Canon sch g.
+Proof. intros Hu Hk Hkeys Hc H. apply (level_canon sch Hu Hk Hkeys false ns _ _ _ _ _ Hc H). Qed.
+
+(* ------------------------------------------------------------------------------------------- *)
 (* witnesses of the deviations (each is a finding, replayed on libyang by known_findings.d/dflt.json)              *)
 (* ------------------------------------------------------------------------------------------- *)
 Definition wleaf (par : option sid) (d : list bytes) (ch : list chc) : sinfo :=
@@ -787,6 +1449,22 @@ Definition w1_valid : forest :=
   [DN 0 [113] false [] []; DN 1 [49] true [] []; DN 2 [50] true [] []; DN 4 [119] false [] []].      (* e d(dflt) y(dflt) w *)
 Definition w1_freed : forest := [DN 1 [49] true [] []; DN 2 [50] true [] []; DN 4 [119] false [] []]. (* e freed *)
 
+Definition snd_or_nil (r : res (forest * list change)) : list change := match r with Ok (_, d) => d | Err _ => [] end.
+Definition w1_d0 := snd_or_nil (validate_all w1_sch w1_parsed).
+Definition w1_d := snd_or_nil (validate_all w1_sch w1_freed).
+
+Lemma w1_f1 : schema_okb w1_sch = true. Proof. vm_compute. reflexivity. Qed.
+Lemma w1_f2 : chc_okb w1_sch = true. Proof. vm_compute. reflexivity. Qed.
+Lemma w1_f3 : validate_all w1_sch w1_parsed = Ok (w1_valid, w1_d0). Proof. vm_compute. reflexivity. Qed.
+Lemma w1_f4 : normalb w1_sch w1_valid = true. Proof. vm_compute. reflexivity. Qed.
+Lemma w1_f5 : canonb w1_sch None w1_freed = true. Proof. vm_compute. reflexivity. Qed.
+Lemma w1_f6 : np_flagsb w1_sch w1_freed = true. Proof. vm_compute. reflexivity. Qed.
+Lemma w1_f7 : flag_soundb w1_sch w1_freed = true. Proof. vm_compute. reflexivity. Qed.
+Lemma w1_f8 : validate_all w1_sch w1_freed = Ok (w1_freed, w1_d). Proof. vm_compute. reflexivity. Qed.
+Lemma w1_f8b : is_nil w1_d = false. Proof. vm_compute. reflexivity. Qed.
+Lemma w1_f9 : normalb w1_sch w1_freed = false. Proof. vm_compute. reflexivity. Qed.
+Lemma w1_f10 : strip w1_freed = [DN 4 [119] false [] []]. Proof. vm_compute. reflexivity. Qed.
+
 Lemma w1_facts :
   schema_okb w1_sch = true /\ chc_okb w1_sch = true /\
   (exists d, validate_all w1_sch w1_parsed = Ok (w1_valid, d)) /\ normalb w1_sch w1_valid = true /\
@@ -794,7 +1472,10 @@ Lemma w1_facts :
   (exists d, validate_all w1_sch w1_freed = Ok (w1_freed, d) /\ d <> []) /\
   normalb w1_sch w1_freed = false /\ strip w1_freed = [DN 4 [119] false [] []].
 Proof.
-  vm_compute. repeat split; try reflexivity; eexists; try split; try reflexivity; discriminate.
+  split; [exact w1_f1|]. split; [exact w1_f2|]. split; [exists w1_d0; exact w1_f3|]. split; [exact w1_f4|].
+  split; [exact w1_f5|]. split; [exact w1_f6|]. split; [exact w1_f7|].
+  split; [exists w1_d; split; [exact w1_f8|intro E; pose proof w1_f8b as H; rewrite E in H; discriminate]|].
+  split; [exact w1_f9|exact w1_f10].
 Qed.
 
 (* dflt-leaflist-partial: leaf-list ll { default x; default y }  leaf z;  sids ll 0, z 1 *)
@@ -804,12 +1485,25 @@ Definition w2_parsed : forest := [DN 1 [113] false w_new []].
 Definition w2_valid : forest := [DN 0 [120] true [] []; DN 0 [121] true [] []; DN 1 [113] false [] []].
 Definition w2_freed : forest := [DN 0 [121] true [] []; DN 1 [113] false [] []].                     (* ll = x freed *)
 
+Definition w2_d0 := snd_or_nil (validate_all w2_sch w2_parsed).
+Lemma w2_f1 : schema_okb w2_sch = true. Proof. vm_compute. reflexivity. Qed.
+Lemma w2_f2 : chc_okb w2_sch = true. Proof. vm_compute. reflexivity. Qed.
+Lemma w2_f3 : validate_all w2_sch w2_parsed = Ok (w2_valid, w2_d0). Proof. vm_compute. reflexivity. Qed.
+Lemma w2_f4 : normalb w2_sch w2_valid = true. Proof. vm_compute. reflexivity. Qed.
+Lemma w2_f5 : canonb w2_sch None w2_freed = true. Proof. vm_compute. reflexivity. Qed.
+Lemma w2_f6 : flag_soundb w2_sch w2_freed = true. Proof. vm_compute. reflexivity. Qed.
+Lemma w2_f7 : validate_all w2_sch w2_freed = Ok (w2_freed, []). Proof. vm_compute. reflexivity. Qed.
+Lemma w2_f8 : normalb w2_sch w2_freed = false. Proof. vm_compute. reflexivity. Qed.
+
 Lemma w2_facts :
   schema_okb w2_sch = true /\ chc_okb w2_sch = true /\
   (exists d, validate_all w2_sch w2_parsed = Ok (w2_valid, d)) /\ normalb w2_sch w2_valid = true /\
   canonb w2_sch None w2_freed = true /\ flag_soundb w2_sch w2_freed = true /\
   validate_all w2_sch w2_freed = Ok (w2_freed, []) /\ normalb w2_sch w2_freed = false.
-Proof. vm_compute. repeat split; try reflexivity; eexists; reflexivity. Qed.
+Proof.
+  split; [exact w2_f1|]. split; [exact w2_f2|]. split; [exists w2_d0; exact w2_f3|]. split; [exact w2_f4|].
+  split; [exact w2_f5|]. split; [exact w2_f6|]. split; [exact w2_f7|exact w2_f8].
+Qed.
 
 (* vdiff-np-container: choice ch { case a { container c; leaf e } case b { leaf z } };  sids c 0, e 1, z 2 *)
 Definition w3_sch : schema :=
@@ -819,6 +1513,17 @@ Definition w3_parsed : forest := [DN 1 [113] false w_new []].
 Definition w3_valid : forest := [DN 0 [] true [] []; DN 1 [113] false [] []].
 Definition w3_freed : forest := [DN 0 [] true [] []].                                                  (* e freed *)
 
+Definition w3_d0 := snd_or_nil (validate_all w3_sch w3_parsed).
+Definition w3_d := snd_or_nil (validate_all w3_sch w3_freed).
+Lemma w3_f1 : schema_okb w3_sch = true. Proof. vm_compute. reflexivity. Qed.
+Lemma w3_f2 : chc_okb w3_sch = true. Proof. vm_compute. reflexivity. Qed.
+Lemma w3_f3 : validate_all w3_sch w3_parsed = Ok (w3_valid, w3_d0). Proof. vm_compute. reflexivity. Qed.
+Lemma w3_f4 : canonb w3_sch None w3_freed = true. Proof. vm_compute. reflexivity. Qed.
+Lemma w3_f5 : validate_all w3_sch w3_freed = Ok ([], w3_d). Proof. vm_compute. reflexivity. Qed.
+Lemma w3_f6 : changes_idb w3_sch w3_d = true. Proof. vm_compute. reflexivity. Qed.
+Lemma w3_f7 : np_norm w3_sch (apply_changes w3_sch w3_d w3_freed) = w3_freed. Proof. vm_compute. reflexivity. Qed.
+Lemma w3_f8 : np_norm w3_sch (apply_changes_all w3_sch w3_d w3_freed) = []. Proof. vm_compute. reflexivity. Qed.
+
 Lemma w3_facts :
   schema_okb w3_sch = true /\ chc_okb w3_sch = true /\
   (exists d, validate_all w3_sch w3_parsed = Ok (w3_valid, d)) /\
@@ -826,4 +1531,7 @@ Lemma w3_facts :
   (exists d, validate_all w3_sch w3_freed = Ok ([], d) /\ changes_idb w3_sch d = true /\
              np_norm w3_sch (apply_changes w3_sch d w3_freed) = w3_freed /\
              np_norm w3_sch (apply_changes_all w3_sch d w3_freed) = []).
-Proof. vm_compute. repeat split; try reflexivity; eexists; repeat split; reflexivity. Qed.
+Proof.
+  split; [exact w3_f1|]. split; [exact w3_f2|]. split; [exists w3_d0; exact w3_f3|]. split; [exact w3_f4|].
+  exists w3_d. split; [exact w3_f5|]. split; [exact w3_f6|]. split; [exact w3_f7|exact w3_f8].
+Qed.
